@@ -97,6 +97,47 @@ def _is_literal(e: ast.AST) -> bool:
     return False
 
 
+
+def _is_immutable_literal(e: ast.AST) -> bool:
+    if isinstance(e, ast.Constant):
+        return True
+    if isinstance(e, ast.UnaryOp) and isinstance(e.op, ast.USub) and isinstance(e.operand, ast.Constant):
+        return True
+    if isinstance(e, ast.Tuple):
+        return all(_is_immutable_literal(x) for x in e.elts)
+    if isinstance(e, ast.Call) and isinstance(e.func, ast.Name) and e.func.id in ("frozenset", "tuple") and len(e.args) == 1 and not e.keywords:
+        return _is_literal(e.args[0])
+    return False
+
+
+_READ_METHODS = {"get", "items", "keys", "values", "index", "count", "copy"}
+
+
+def _only_read(tree: ast.Module, name: str) -> bool:
+    """a module-level list/set/dict literal may be propagated only if the object can never change: every use of the
+    name is a membership test, an iteration, a subscript load or a read-only method call"""
+    parents = {}
+    for n in ast.walk(tree):
+        for ch in ast.iter_child_nodes(n):
+            parents[ch] = n
+    for n in ast.walk(tree):
+        if not (isinstance(n, ast.Name) and n.id == name and isinstance(n.ctx, ast.Load)):
+            continue
+        p = parents.get(n)
+        if isinstance(p, ast.Compare) and n in p.comparators and all(isinstance(o, (ast.In, ast.NotIn)) for o in p.ops):
+            continue
+        if isinstance(p, (ast.For, ast.comprehension)) and p.iter is n:
+            continue
+        if isinstance(p, ast.Subscript) and p.value is n and isinstance(p.ctx, ast.Load):
+            continue
+        if isinstance(p, ast.Attribute) and p.value is n and p.attr in _READ_METHODS and isinstance(parents.get(p), ast.Call) and parents[p].func is p:
+            continue
+        if isinstance(p, ast.Call) and isinstance(p.func, ast.Name) and p.func.id in ("len", "sorted", "list", "tuple", "set", "frozenset", "dict", "enumerate", "iter", "any", "all", "min", "max", "sum") and n in p.args:
+            continue
+        return False
+    return True
+
+
 def _mark(node: ast.AST) -> ast.AST:
     for n in ast.walk(node):
         n._subst = True  # type: ignore[attr-defined]
@@ -337,6 +378,91 @@ def _fold_function(fn) -> int:
     return f.count
 
 
+
+# --------------------------------------------------------------------------------------------------
+# N0: identity of renamed / hoisted private functions
+
+def _body_shapes(fn) -> list[str]:
+    from .alpha import _simple_statements, _header, _shape, locals_of
+    loc = locals_of(fn) | set(_params(fn))
+    return [_shape(_header(st), loc) for st in _simple_statements(fn) if not (isinstance(st, ast.Expr) and isinstance(st.value, ast.Constant))]
+
+
+def _recover_function_names(modules, ref_trees, report) -> None:
+    """a private function that exists only in the analysed tree and whose body aligns (name-blind statement shapes,
+    ratio >= 0.8, at least 3 statements) with a function that exists only in the reference is the same function under a
+    new name: it is renamed back (definition and every reference in the package); a module-level function that replaces
+    a nested closure of the reference is moved back into the function that uses it.  Pure renaming/re-nesting: the
+    function must not capture anything it could not see at its old place."""
+    import difflib
+    for name, mi in modules.items():
+        rt = ref_trees.get(name)
+        if rt is None:
+            continue
+        cur, ref = _index_funcs(mi.tree), _index_funcs(rt)
+        new = {q: f for q, f in cur.items() if q not in ref and f.name.startswith("_") or (q not in ref and ".<locals>." in q)}
+        missing = {q: f for q, f in ref.items() if q not in cur}
+        if not new or not missing:
+            continue
+        used_new, used_missing = set(), set()
+        pairs = []
+        for qn, fnew in new.items():
+            sn = _body_shapes(fnew)
+            if len(sn) < 3:
+                continue
+            for qm, fmiss in missing.items():
+                sm_ = _body_shapes(fmiss)
+                if len(sm_) < 3:
+                    continue
+                ratio = difflib.SequenceMatcher(a=sn, b=sm_, autojunk=False).ratio()
+                if ratio >= 0.8:
+                    pairs.append((ratio, qn, qm))
+        for ratio, qn, qm in sorted(pairs, reverse=True):
+            if qn in used_new or qm in used_missing:
+                continue
+            fnew = new[qn]
+            old_name, ref_name = fnew.name, missing[qm].name
+            scope_n, scope_m = qn.rsplit(".", 1)[0] if "." in qn else "", qm.rsplit(".", 1)[0] if "." in qm else ""
+            # the old name must not be taken in the analysed tree
+            if any(isinstance(n, FuncT) and n.name == ref_name for m2 in modules.values() for n in ast.walk(m2.tree)) and scope_n == scope_m:
+                continue
+            if scope_n == scope_m:
+                _rename_function(modules, old_name, ref_name)
+                report["renamed_functions"].append(f"{name}:{qn} -> {qm} (similarity {ratio:.2f})")
+            elif scope_n == "" and scope_m.endswith(".<locals>") and scope_m[:-len(".<locals>")] in cur:
+                host = cur[scope_m[:-len(".<locals>")]]
+                refs_outside = [n for m2 in modules.values() for n in ast.walk(m2.tree) if isinstance(n, ast.Name) and n.id == old_name
+                                and not any(x is n for x in ast.walk(host)) and not any(x is n for x in ast.walk(fnew))]
+                hostlocals = _stores(host) | set(_params(host))
+                free = {n.id for n in ast.walk(fnew) if isinstance(n, ast.Name) and isinstance(n.ctx, ast.Load)} - _stores(fnew) - set(_params(fnew))
+                if refs_outside or free & hostlocals or fnew.decorator_list:
+                    continue
+                mi.tree.body = [x for x in mi.tree.body if x is not fnew]
+                fnew.name = ref_name
+                for n in ast.walk(host):
+                    if isinstance(n, ast.Name) and n.id == old_name:
+                        n.id = ref_name
+                k = 1 if host.body and isinstance(host.body[0], ast.Expr) and isinstance(host.body[0].value, ast.Constant) else 0
+                host.body.insert(k, fnew)
+                report["renamed_functions"].append(f"{name}:{qn} -> {qm} (re-nested, similarity {ratio:.2f})")
+            else:
+                continue
+            used_new.add(qn)
+            used_missing.add(qm)
+
+
+def _rename_function(modules, old: str, new: str) -> None:
+    for mi in modules.values():
+        for n in ast.walk(mi.tree):
+            if isinstance(n, FuncT) and n.name == old:
+                n.name = new
+            elif isinstance(n, ast.Attribute) and n.attr == old:
+                n.attr = new
+            elif isinstance(n, ast.Name) and n.id == old:
+                n.id = new
+            elif isinstance(n, ast.alias) and n.name == old:
+                n.name = new
+
 # --------------------------------------------------------------------------------------------------
 # N1: constants
 
@@ -361,7 +487,8 @@ def _propagate_constants(modules, ref_names, report) -> set:
             for t in _targets(n):
                 val = n.value
                 if t not in refn and counts.get(t, 0) == 1 and _is_literal(val) and t != "__all__":
-                    consts[t] = val
+                    if _is_immutable_literal(val) or _only_read(mi.tree, t):
+                        consts[t] = val
         if consts:
             new_consts[name] = consts
     if not new_consts:
@@ -1561,10 +1688,10 @@ def _drop_default_args(modules, report) -> None:
 
 def normalise(modules: dict, pkg: str = "rtflite") -> dict:
     report = {"constants": [], "constants_propagated": 0, "specialised_params": [], "folded": 0, "inlined": [], "not_inlined": [],
-              "dissolved": []}
+              "dissolved": [], "renamed_functions": []}
     if not REF_ROOT.is_dir():
         return report
-    ref_names, ref_funcs = {}, {}
+    ref_names, ref_funcs, ref_trees = {}, {}, {}
     for name, mi in modules.items():
         try:
             relp = pathlib.Path(mi.path).relative_to(pathlib.Path("src") / pkg)
@@ -1579,6 +1706,8 @@ def normalise(modules: dict, pkg: str = "rtflite") -> dict:
             continue
         ref_names[name] = _toplevel_names(rt)
         ref_funcs[name] = _index_funcs(rt)
+        ref_trees[name] = rt
+    _recover_function_names(modules, ref_trees, report)
     touched = set()
     touched |= _propagate_constants(modules, ref_names, report)
     touched |= _specialise_defaults(modules, ref_funcs, report)
